@@ -30,9 +30,19 @@ THEOREMS = [
     'CC.C13_geometry', 'CC.C13_wire_split', 'CC.C13_order', 'CC.C13_tables',
 ]
 OPEN_STATEMENTS = [
-    'transformed drawing (rotation / translation / rescaling / wire splitting / symbol order) ⇒ the two translated circuits are '
-    'equal up to a renaming of nodes ⇒ same solution: not a theorem (C13_geometry / C13_wire_split / C13_order are lemmas about '
-    'Joined and wiresOf; injectivity of rounding∘transformation is assumed) — judged by the metamorphic oracle streams only',
+    'transformed drawing ⇒ same circuit up to a renaming of nodes ⇒ same solution: NOW THEOREMS about the model\'s '
+    'circuit_translator (CC/Properties/C13Invariance.lean: C13_moved, C13_split, C13_perm and *_same_solution, for any two set '
+    'iteration orders). What they still ASSUME, as explicit hypotheses: (a) MappedBy / RoundCommutes — the rounded terminals of '
+    'the transformed drawing are the images, under a map g injective on the terminals (InjOnTerms), of the rounded terminals of '
+    'the original, i.e. round_node commutes with the float rotation / translation / rescaling that schemdraw applies: a fact '
+    'about float geometry, not proved (C13_rigid_maps_injective only proves that translations, quarter turns and non-zero '
+    'rescalings of exact rational points are injective) — judged per case by the metamorphic oracle streams; (b) C13_DrawingWF '
+    '(no node name on two different electrical nodes); (c) the split point is no terminal of any symbol. Limits of what is proved: '
+    'C13_perm gives the component list up to a permutation and the reference node only when a ground component exists (without '
+    'one it depends on the order: counterexample example in the file), and when the original translation raises, the permuted one '
+    'raises possibly another error; "same solution" is stated for every node-blind reading `elem` of components as branch records '
+    '(the library\'s own reading, the transformer table of group Circuit, is not instantiated) and for circuits with at least one '
+    'component; that the renaming fixes the names given by node symbols is not proved (C13_named gives it per symbol)',
     'per-kind translation (kind, values, polarity of every symbol) against an independent Spec of the symbols: generated tables '
     '(C13_polarity, C13_tables) + correspondence + intended-netlist oracle, no theorem',
     'reference node: Circuit.ground_node / ground_label is the name of the node the ground symbol sits on — oracle only '
@@ -40,7 +50,13 @@ OPEN_STATEMENTS = [
 ]
 # the parser model *is* DiagramParser.py: every method, translated statement by statement
 # (harness/extract_drawparser.py → CC/Gen/DrawParser.lean), equals the hand-written model function
-LEAN_MODULE_EXTRA = ['CC.Properties.C13Gen']
+LEAN_MODULE_EXTRA = ['CC.Properties.C13Gen', 'CC.Properties.C13Invariance']
+# round 5: the metamorphic statements lifted from `Joined` to the translated circuit and composed with C03
+THEOREMS += [
+    'CC.C13_moved', 'CC.C13_rigid_maps_injective', 'CC.C13_moved_raw', 'CC.C13_split', 'CC.C13_perm', 'CC.C13_perm_ok_iff',
+    'CC.C13_circuitEqs_rename_on', 'CC.C13_netOf_rename', 'CC.C13_netOf_labels',
+    'CC.C13_moved_same_solution', 'CC.C13_split_same_solution', 'CC.C13_perm_same_solution',
+]
 THEOREMS += [
     'CC.C13_gen_elements', 'CC.C13_gen_all_nodes', 'CC.C13_gen_sweep', 'CC.C13_gen_equal_potential',
     'CC.C13_gen_unique_nodes', 'CC.C13_gen_unique_node_mapping', 'CC.C13_gen_node_label_mapping',
